@@ -24,6 +24,7 @@ def base_env(wcls, dcls, focus_w=None, focus_d=None, j=None):
 
 def check(ctx):
     p = ctx.prog
+    no_use_after_move(ctx, 'move.no_use_after_move', ['hep::multi_channel_refine_weights', 'hep::multi_channel_chkpt::channel_weights', 'hep::multi_channel_chkpt::channels'])
     # all arithmetic behind this property happens in the numeric type T of the instantiation
     single_precision(ctx, 'prec.single_type', ['hep::multi_channel_refine_weights', 'hep::multi_channel_chkpt::', 'hep::multi_channel_result::'], 1)
     ctx.assume('weights non-negative, adjustment data finite and non-negative, beta > 0, '
